@@ -39,7 +39,7 @@ FIXED = [
 
 def gen(rng, tier):
     cases = []
-    maxlen = 2 if tier == "quick" else 4
+    maxlen = 3 if tier == "quick" else 4
     for i, (f, t, o) in enumerate(FIXED):
         for n in range(0, maxlen + 1):
             for seq in itertools.product(OPS, repeat=n):
@@ -49,7 +49,7 @@ def gen(rng, tier):
             f, t, o = FIXED[i]
             for seq in itertools.product(OPS, repeat=5):
                 cases.append({"f": f, "t": t, "opts": o, "ops": list(seq), "color": False})
-    n = 120 if tier == "quick" else 2500
+    n = 700 if tier == "quick" else 9000
     for k in range(n):
         a = S.gen_doc(rng)
         b = S.mutate(rng, a) if rng.random() < 0.85 else S.gen_doc(rng)
@@ -101,6 +101,7 @@ def run_ops(case, quiet):
     from graphtage import printer as gp
     T.set_quiet(quiet)
     del S._RECORD[:]
+    del T._MD[:]
     A = T.build(case, "f")
     B = T.build(case, "t")
     e = A.edits(B)
@@ -148,7 +149,7 @@ def run_ops(case, quiet):
             if type(ex).__name__ == "Hang":
                 raise
             fin = {"raise": type(ex).__name__, "msg": str(ex)[:120]}
-    return {"results": results, "final": fin, "oracle": list(S._RECORD), "root": type(e).__name__}
+    return {"results": results, "final": fin, "oracle": list(S._RECORD), "mdo": list(T._MD), "root": type(e).__name__}
 
 
 def cli_path(case, quiet):
@@ -203,17 +204,55 @@ def _impl(case):
 
 # ------------------------------------------------------------------------------------------------ model side
 
-MODEL_READY = False
+MODEL_READY = True
+MODEL_MS = True        # MultiSetEdit / matcher modelled?
+
+
+def has_dict(x):
+    if isinstance(x, dict):
+        return True
+    if isinstance(x, list):
+        return any(has_dict(c) for c in x)
+    return False
+
+
+def in_model_domain(case):
+    if case.get("api"):
+        return False
+    if MODEL_MS:
+        return True
+    return not case.get("opts", {}).get("allow_key_edits", True) or not (has_dict(case["f"]) or has_dict(case["t"]))
 
 
 def to_model(case, obs):
     if not MODEL_READY or "render" in case["ops"] or not isinstance(obs, dict) or obs.get("error"):
         return None
-    return None
+    if not in_model_domain(case):
+        return None
+    o = case.get("opts", {})
+    return {"s": "lazy", "f": S.enc(case["f"]), "t": S.enc(case["t"]),
+            "ake": o.get("allow_key_edits", True), "amk": o.get("auto_match_keys", True),
+            "ale": o.get("allow_list_edits", True), "alesl": o.get("allow_list_edits_when_same_length", True),
+            "ops": case["ops"], "quiets": [True, False],
+            "oracle": [[r for r in obs[tag].get("oracle", []) if "pairs" in r] for tag in ("q", "nq")],
+            "md": [[r for r in obs[tag].get("mdo", []) if "counts" in r] for tag in ("q", "nq")]}
+
+
+def _strip(run):
+    res = []
+    for r in run["results"]:
+        if isinstance(r, dict) and "raise" in r:
+            res.append({"raise": "python:" + r["raise"]})
+        else:
+            res.append(r)
+    fin = run.get("final")
+    if isinstance(fin, dict) and "raise" in fin:
+        fin = {"raise": "python:" + fin["raise"]}
+    return {"results": res, "final": fin}
 
 
 def expect(case, obs):
-    return None
+    return [_strip(obs["q"]), _strip(obs["nq"])]
 
 
 # ------------------------------------------------------------------------------------------------ monitor
